@@ -29,6 +29,27 @@ def _norm(s):
     return re.sub(r"\s+", " ", s).strip()
 
 
+def _rename(text, mapping):
+    """consistent renaming of identifiers (whole words); used to bring harmlessly renamed locals / parameters back to the names the shape
+    patterns are written with.  Refuses a renaming that would merge two different identifiers."""
+    mapping = {a: b for a, b in mapping.items() if a != b}
+    for a, b in mapping.items():
+        if b not in mapping and re.search(r"\b%s\b" % re.escape(b), text):
+            raise ExtractError("cannot canonicalise %s -> %s: %s is already used" % (a, b, b))
+    if not mapping:
+        return text
+    return re.sub(r"\b(%s)\b" % "|".join(re.escape(a) for a in mapping), lambda m: mapping[m.group(1)], text)
+
+
+def _params(src, name, types):
+    """parameter names of the definition `name(types[0] p0, types[1] p1, ...)`"""
+    pat = r"\b%s\s*\(\s*%s\s*\)\s*\{" % (re.escape(name), r"\s*,\s*".join(r"%s\s+(\w+)" % re.escape(t) for t in types))
+    m = re.search(pat, src)
+    if not m:
+        raise ExtractError("%s(%s): signature not recognised" % (name, ", ".join(types)))
+    return m.groups()
+
+
 def _has_minneg_guard(body, divisor, dividend, before):
     """an `if ((divisor == -1) && (dividend == INT64_MIN)) janet_panic(` (either order) textually before `before`"""
     cut = body.find(before)
@@ -161,6 +182,11 @@ def extract(tree):
     # ---- hand-written floor division / modulo ----------------------------------------------------------
     for fn in ("divf", "divfi", "mod", "modi"):
         body = csrc.func_body(src, "cfun_it_s64_" + fn)
+        # canonical local names (a renamed local is harmless): the box, the quotient / remainder variable, its dividend and divisor
+        mb = re.search(r"int64_t\s*\*\s*(\w+)\s*=\s*janet_abstract\s*\(", body)
+        mq = re.search(r"int64_t\s+(\w+)\s*=\s*(\w+)\s*[/%]\s*(\w+)\s*;", body)
+        if mb and mq:
+            body = _rename(body, {mb.group(1): "box", mq.group(1): "x", mq.group(2): "op1", mq.group(3): "op2"})
         n = _norm(body)
         m1 = re.search(r"int64_t op1 = janet_unwrap_s64\(argv\[(\d)\]\);", n)
         m2 = re.search(r"int64_t op2 = janet_unwrap_s64\(argv\[(\d)\]\);", n)
@@ -181,14 +207,25 @@ def extract(tree):
             g[fn + "Guard"] = bool(re.search(r"else if \(\s*op2 == -1\s*\) \{ \*box = 0; \}", n[:cut]))
 
     # ---- mixed comparison ------------------------------------------------------------------------------
-    b = _norm(csrc.func_body(src, "compare_int64_double"))
+    def _cmp_body(fname, ity):
+        px, py = _params(src, fname, (ity, "double"))
+        b = csrc.func_body(src, fname)
+        md = re.search(r"double\s+(\w+)\s*=\s*\(\s*double\s*\)\s*%s\s*;" % re.escape(px), b)
+        mi = re.search(r"%s\s+(\w+)\s*=\s*\(\s*%s\s*\)\s*%s\s*;" % (ity, ity, re.escape(py)), b)
+        mp = {px: "x", py: "y"}
+        if md:
+            mp[md.group(1)] = "dx"
+        if mi:
+            mp[mi.group(1)] = "yi"
+        return _norm(_rename(b, mp))
+    b = _cmp_body("compare_int64_double", "int64_t")
     m = re.search(r"if \(isnan\(y\)\) \{ return 0; \} else if \(\(y > JANET_INTMIN_DOUBLE\) && \(y < JANET_INTMAX_DOUBLE\)\) \{ double dx = \(double\) x; return compare_double_double\(dx, y\); \} "
                   r"else if \(y (>=?) \(\(double\) INT64_MAX\)\) \{ return -1; \} else if \(y (<=?) \(\(double\) INT64_MIN\)\) \{ return 1; \} "
                   r"else \{ int64_t yi = \(int64_t\) y; return \(x < yi\) \? -1 : \(\(x > yi\) \? 1 : 0\); \}", b)
     if not m:
         raise ExtractError("compare_int64_double: shape changed: " + b[:400])
     g["cmpS64Upper"], g["cmpS64Lower"] = m.group(1), m.group(2)
-    b = _norm(csrc.func_body(src, "compare_uint64_double"))
+    b = _cmp_body("compare_uint64_double", "uint64_t")
     m = re.search(r"if \(isnan\(y\)\) \{ return 0; \} else if \(y < 0\) \{ return 1; \} else if \(\(y >= 0\) && \(y < JANET_INTMAX_DOUBLE\)\) \{ double dx = \(double\) x; return compare_double_double\(dx, y\); \} "
                   r"else if \(y (>=?) \(\(double\) UINT64_MAX\)\) \{ return -1; \} "
                   r"else \{ uint64_t yi = \(uint64_t\) y; return \(x < yi\) \? -1 : \(\(x > yi\) \? 1 : 0\); \}", b)
@@ -295,6 +332,9 @@ def extract(tree):
             raise ExtractError(opn + " not found")
         i = vm.index("{", mm.start())
         body = _norm(vm[i:csrc.match_brace(vm, i)])
+        ml = re.search(r"double (\w+) = x2 \* floor\(x1 / x2\);", body)
+        if ml:
+            body = _rename(body, {ml.group(1): "intres"})
         if 'janet_binop_call("%s", "%s", op1, op2)' % (lm, rm) not in body:
             raise ExtractError("%s: method names changed" % opn)
         shape = {"divfloor": "janet_wrap_number(floor(x1 / x2))",
